@@ -81,13 +81,13 @@ type ReplayFile struct {
 	Choices   []uint32 `json:"choices"`
 	// HistoryFrom >= 0: the violation needs the runs HistoryFrom..Run of this seed executed in one process
 	// (state in the code under test survives from one run to the next); replay re-executes exactly those.
-	HistoryFrom *int `json:"history_from,omitempty"`
-	Original    int  `json:"original_choice_count"`
-	Trace     []Event  `json:"trace"`
-	Message   string   `json:"message"`
-	RaceLog   string   `json:"race_report,omitempty"`
-	Toolchain string   `json:"toolchain"`
-	RepoHead  string   `json:"repo_head"`
+	HistoryFrom *int    `json:"history_from,omitempty"`
+	Original    int     `json:"original_choice_count"`
+	Trace       []Event `json:"trace"`
+	Message     string  `json:"message"`
+	RaceLog     string  `json:"race_report,omitempty"`
+	Toolchain   string  `json:"toolchain"`
+	RepoHead    string  `json:"repo_head"`
 }
 
 // ---- environment -----------------------------------------------------------------
